@@ -9,7 +9,7 @@ MODULE = "NrDaemon.Props.C05"
 RULE = ("engines res/err/tr/slow/mt (bounds and counters of the real containers after every op) and lim (real parseConnectReply, "
         "NewHarvestLimits, processLogEventLimits, NewHarvest): collector limits absent/null/zero/negative/over-maximum per "
         "category, report periods absent/zero/custom, agent limits negative/zero/inside/over the maxima, boundary sizes "
-        "1999/2000/2001 for the metric table. Non-trivial = a container reached its capacity, or a limit was clipped/absent/negative; distinct = distinct op lists.")
+        "1999/2000/2001 for the metric table. Batch `proc` (the real Processor): small agent limits against larger or absent collector limits with more events than fit offered in the first harvest period after the connect and in later ones; every event payload the real processor sends is checked against the capacity negotiated for its run. Non-trivial = a container reached its capacity, or a limit was clipped/absent/negative; distinct = distinct op lists.")
 ASSUMPTIONS = ["exact rational arithmetic for the scaled log limit (generator keeps agent_limit*period below 2^53 where equality is compared)",
                "the 250-application cap and the supportability counters are checked by the `proc` engine (C01/C05 batches)"]
 EXPLANATION = "Theorems about the negotiation functions and the container bounds in Lean; correspondence and C05 Spec messages on the real code."
@@ -22,6 +22,7 @@ LEVEL_NOTE = "Trusted: Lean kernel; constants regenerated from limits.go; the JS
 DESIGN_REF = "DESIGN.md §6 C05"
 
 SPEC_PREFIXES = ("C05", "lim:")
+PIN_PREFIX = 1
 MAXES = {"ee": 100, "ae": 10000, "ce": 100000, "se": 10000, "le": 20000, "sl": 10000}
 
 
@@ -83,10 +84,16 @@ def plan(ctx):
         seqs.append(("mt-%d" % i, gm.mt_seq(rng)))
         seqs.append(("lim-%d" % i, lim_seq(rng)))
     seqs.append(("mt-boundary-2000", boundary_metrics()))
-    return [("corpus", corpus(ID)), ("gen", seqs)]
+    from checks import gen_proc
+    m = 40 if tier == "quick" else 1500
+    caps = [("cap%d" % i, gen_proc.capacity_history(rng)) for i in range(m)]
+    return [("corpus", corpus(ID)), ("gen", seqs), ("proc", caps)]
 
 
 def run(ctx, bname, seqs):
+    if seqs and seqs[0][1] and seqs[0][1][0].startswith("proc "):
+        from checks import proc_common as pc
+        return pc.run_proc(ctx, bname, seqs, SPEC_PREFIXES)
     rs = vlib.run_sequences(seqs, ctx["work"], tag=bname)
     for r in rs:
         r.spec = [(i, m) for (i, m) in r.spec if m.startswith(SPEC_PREFIXES) or m.startswith("harness")]
@@ -95,6 +102,8 @@ def run(ctx, bname, seqs):
 
 def nontrivial(r):
     eng = r.ops[0].split()[0] if r.ops else ""
+    if eng == "proc":
+        return any(o.startswith("proc trigger") for o in r.ops)
     if eng == "lim":
         return any(("=-" in o or "=N" in o or "0 " in o or "-1" in o) for o in r.ops)
     if eng == "mt":
